@@ -88,12 +88,12 @@ NOT_YET = {}
 # monitors added after the seeded rounds (DESIGN.md sections 3.7, 3.8 and "Additions after the seeded rounds")
 _EXTRA = {
     "C01": "; object / population histories (path reassigned, re-configured copy, shared filter dictionary, files arriving between queries)",
-    "C02": "; object histories (placeholders set late, re-configured copy, time_coverage re-assigned after a look-up), explicit template= checks",
+    "C02": "; object histories (placeholders set late, re-configured copy, time_coverage re-assigned after a look-up), explicit template= checks, short partial ends",
     "C03": "; concurrent-call monitor on one tree; build buffer refilled after construction; all-covering partner files",
     "C04": "; call histories on one Collocator (in-place updated inputs, grid reuse), threads option, inputs-unchanged monitor, thresholds above one day",
     "C05": "; forced rare classes (fixed grid, midnight-crossing files, pre-binned file pairs), makedirs rendezvous of two workers, period end on a file start",
-    "C06": "; call-history monitor on query, build arrays refilled after construction",
-    "C07": "; call-history monitor on every function (un-armed originals), inputs-unchanged monitor, keyword-call relation",
+    "C06": "; call-history monitor on query, build arrays refilled after construction, MemoryError failpoint in the radius search",
+    "C07": "; call-history monitor on every function (un-armed originals), inputs-unchanged monitor, keyword-call relation, concurrent-call monitor with statement-level yield injection",
     "C08": "; call-history and concurrent-call monitors on every function, inputs-unchanged monitor, keyword-call relation",
     "C09": "; buffer-reuse call histories on every function, million-element arrays against piecewise evaluation, keyword spelling of rejected calls",
     "C10": "; two filesets with different handlers in use at once; files= as list/tuple/generator/iterator/empty; compressed fileset with an unreadable member",
@@ -103,10 +103,10 @@ _EXTRA = {
     "C14": "; call-history monitor, independent saturation model at the regime boundaries, first use of a fresh interpreter from 32 threads under per-statement delay injection",
     "C15": "; re-save / reload histories on live objects, C-locale restarts, surrogate paths",
     "C16": "; object / population histories (re-configured copy, date-like stray directories), handler-provided coverage, fixed name-order and direct-hit scenarios",
-    "C17": "; call histories (in-place updated inputs, held results, float32 first), closed-form high-SNR class, integer-dtype inputs against float64",
+    "C17": "; call histories (in-place updated inputs, held results, float32 first), closed-form high-SNR class, integer-dtype inputs against float64, invalid-inputs-first process history, keyword-call relation",
     "C18": "; call histories against a newly built twin object",
-    "C19": "; call-history monitor, memory layouts",
-    "C20": "; real download path against a faked urlopen with broken transfers, concurrent get_tile, second get_grids after caller-side changes",
+    "C19": "; call-history monitor, memory layouts, mixed-precision and narrow-integer inputs",
+    "C20": "; real download path against a faked urlopen with broken transfers, concurrent get_tile, second get_grids after caller-side changes, cache on another file system",
 }
 for _k, _v in _EXTRA.items():
     _c = CHECKS[_k]
